@@ -319,6 +319,14 @@ def run(ck):
     from ..report import RuleView as _RV16
     from . import c11 as _c11
     _c11.run(_RV16(ck, {"C11.7": "C16.5"}))
+    ck.clause("C16.10", "the top-count seeds are chosen once over the correlations of all references (as C05.9): per-reference selections "
+                        "merged afterwards are not the top peaks")
+    from .c05 import seeds_over_all_references as _soar16
+    _soar16(ck, "C16.10")
+    ck.clause("C16.9", "the vectoriser's input is ascending: label positions pass a sort before they enter an OpticalMap (as C17.1) - the "
+                       "scanning loop skips every label behind its cursor and takes positions[-1] for the end of the vector")
+    from .c10 import id_filters as _idf16
+    _idf16(_RV16(ck, {"C17.1": "C16.9"}), "C17.3", "C17.1")
     scanning_loop(ck)
     from .c11 import window_arguments
     window_arguments(ck, "C16.2")
